@@ -1,6 +1,7 @@
 (* C18 property theorems. This file contains only statements closed by
    [exact lemma] and Print Assumptions. *)
-From V Require Import Common.Base C18.Pieces C18.PiecesProofs C18.Hash C18.HashProofs C18.XXHash C18.NameProofs C18.LoopProofs.
+From V Require Import Common.Base C18.Pieces C18.PiecesProofs C18.Hash C18.HashProofs C18.XXHash C18.NameProofs C18.LoopProofs C18.Ingredients C18.DeepProofs C18.Inventory C19.SubstProofs.
+From V Require gen.HashInventoryGen.
 
 (* breakOutputIntoPieces terminates on every output (the model's fuel always
    suffices) and re-inserting the unique keys into the pieces gives back
@@ -119,3 +120,96 @@ Theorem same_name_same_bytes_partial : forall pathOf1 pathOf2 ps1 ps2,
   substitute pathOf1 ps1 = substitute pathOf2 ps2.
 Proof. exact same_bytes_partial. Qed.
 Print Assumptions same_name_same_bytes_partial.
+
+(* ---------------- deepening round ---------------- *)
+
+(* breakOutputIntoPieces finds exactly the keys of a CLEAN text (the prefix
+   occurs nowhere but at the keys, overlaps included: the first occurrence in
+   data ++ prefix is at the end of data) - the converse of pieces_lossless,
+   proved in the substitution layer shared with C19 (C19/SubstProofs.v). *)
+Theorem clean_text_is_split_at_its_keys : forall prefix nf nc ps,
+  clean prefix nf nc ps -> break_output prefix nf nc (join_with_keys prefix ps) = Some ps.
+Proof. exact (fun prefix nf nc ps Hc => break_clean prefix nf nc ps Hc _ (Nat.lt_succ_diag_r _)). Qed.
+Print Assumptions clean_text_is_split_at_its_keys.
+
+(* What exactly goes into the isolated hash: the stream the model hashes is the
+   encoding of the ingredient list (namespace, path, part range of every part;
+   template parts; public path; every piece's data or the whole output; the
+   three source-map pieces) ... *)
+Theorem isolated_stream_is_its_ingredients : forall public c,
+  isolated_stream public c = encode_all (iso_ingredients public c).
+Proof. exact isolated_stream_is_ingredients. Qed.
+Print Assumptions isolated_stream_is_its_ingredients.
+
+(* ... and that list, with its guards, is what the source writes into the hasher
+   today (regenerated by the translator c18hashinv on every run; a write that
+   is dropped, added, reordered or put under a new condition breaks this). *)
+Theorem hash_inventory_is_the_modelled_one :
+  HashInventoryGen.iso_writes = map snd iso_expected /\
+  HashInventoryGen.final_writes = final_expected /\
+  HashInventoryGen.loop_calls = loop_expected /\
+  HashInventoryGen.helper_bodies = helpers_expected.
+Proof. exact inventory_matches. Qed.
+Print Assumptions hash_inventory_is_the_modelled_one.
+
+(* same_name_same_ingredients (widens same_name_same_bytes_partial): two builds
+   - any graphs, any options - that give a chunk the same [hash] hash the same
+   ingredients for it, field by field.  Visible hypotheses: H has one output
+   length; the truncated final hash and the isolated hash do not collide on the
+   two streams at hand; same shape; sizes below 2^32. *)
+Theorem same_name_same_ingredients : forall (H : bytes -> bytes),
+  (forall a b, length (H a) = length (H b)) ->
+  forall public1 public2 ar1 ar2 cs1 cs2 r1 r2 c1 c2 s1 s2,
+  (r1 < length cs1)%nat -> (r2 < length cs2)%nat ->
+  Z.of_nat (length cs1) < 4294967296 -> Z.of_nat (length cs2) < 4294967296 ->
+  nth_error cs1 r1 = Some c1 -> nth_error cs2 r2 = Some c2 ->
+  final_stream H public1 ar1 cs1 r1 = Some s1 -> final_stream H public2 ar2 cs2 r2 = Some s2 ->
+  hash_for_file_name (H s1) = hash_for_file_name (H s2) ->
+  (hash_for_file_name (H s1) = hash_for_file_name (H s2) -> s1 = s2) ->
+  (H (isolated_stream public1 c1) = H (isolated_stream public2 c2) ->
+   isolated_stream public1 c1 = isolated_stream public2 c2) ->
+  map ishape (iso_ingredients public1 c1) = map ishape (iso_ingredients public2 c2) ->
+  Forall ing_ok (iso_ingredients public1 c1) -> Forall ing_ok (iso_ingredients public2 c2) ->
+  iso_ingredients public1 c1 = iso_ingredients public2 c2.
+Proof. exact same_name_same_own_ingredients. Qed.
+Print Assumptions same_name_same_ingredients.
+
+(* the shape hypothesis cannot be dropped: the stream does not say where the
+   template parts end and the pieces begin *)
+Theorem same_stream_same_ingredients_without_shape_refuted :
+  isolated_stream [] amb1 = isolated_stream [] amb2 /\ iso_ingredients [] amb1 <> iso_ingredients [] amb2.
+Proof. exact isolated_stream_ambiguous_across_shapes. Qed.
+Print Assumptions same_stream_same_ingredients_without_shape_refuted.
+
+(* with the same import graph and asset references: the same final hash input
+   means the same asset paths and the same isolated hash for every chunk
+   reachable from the root (the converse of final_name_changes_with_dependency) *)
+Theorem same_name_same_reachable_hashes : forall (H : bytes -> bytes),
+  (forall a b, length (H a) = length (H b)) ->
+  forall public ar1 ar2 cs1 cs2 root x c1 c2 s,
+  map c_imports cs1 = map c_imports cs2 ->
+  wf_graph cs1 -> (root < length cs1)%nat -> Z.of_nat (length cs1) < 4294967296 ->
+  (forall i d1 d2, nth_error cs1 i = Some d1 -> nth_error cs2 i = Some d2 ->
+     length (assets_stream ar1 d1) = length (assets_stream ar2 d2)) ->
+  final_stream H public ar1 cs1 root = Some s -> final_stream H public ar2 cs2 root = Some s ->
+  reach cs1 root x -> nth_error cs1 x = Some c1 -> nth_error cs2 x = Some c2 ->
+  assets_stream ar1 c1 = assets_stream ar2 c2 /\ iso_hash H public c1 = iso_hash H public c2.
+Proof. exact same_stream_same_reachable_hashes. Qed.
+Print Assumptions same_name_same_reachable_hashes.
+
+(* every chunk's final hash input contains the isolated hash of every chunk
+   reachable from it, on every import graph - cycles of dynamic imports included *)
+Theorem final_hash_input_contains_every_reachable_hash : forall (H : bytes -> bytes) public ar chunks root x c,
+  wf_graph chunks -> (root < length chunks)%nat -> Z.of_nat (length chunks) < 4294967296 ->
+  reach chunks root x -> nth_error chunks x = Some c ->
+  exists pre post, final_stream H public ar chunks root = Some (pre ++ iso_hash H public c ++ post).
+Proof. exact final_stream_contains_reachable. Qed.
+Print Assumptions final_hash_input_contains_every_reachable_hash.
+
+Theorem cycle_members_hash_each_other : forall (H : bytes -> bytes) public ar chunks a b ca cb,
+  wf_graph chunks -> (a < length chunks)%nat -> (b < length chunks)%nat -> Z.of_nat (length chunks) < 4294967296 ->
+  reach chunks a b -> reach chunks b a -> nth_error chunks a = Some ca -> nth_error chunks b = Some cb ->
+  (exists pre post, final_stream H public ar chunks a = Some (pre ++ iso_hash H public cb ++ post)) /\
+  (exists pre post, final_stream H public ar chunks b = Some (pre ++ iso_hash H public ca ++ post)).
+Proof. exact DeepProofs.cycle_members_hash_each_other. Qed.
+Print Assumptions cycle_members_hash_each_other.
